@@ -21,7 +21,10 @@ def run_history(sg, paths, n, rev, ops, a=1, b=0):
     ev = {"paths": [[list(s), list(e)] for s, e in paths], "n": n, "rev": bool(rev), "lookup": [], "ops": [], "map": [a, b], "status": "ok"}
     try:
         idx = sg.Index(verts, n, rev)
-        ev["lookup"] = [int(c) for c in idx.lookup]
+        try:                                   # the object's own cell table sharpens the verdict; its absence is not an error
+            ev["lookup"] = [int(c) for c in getattr(idx, "lookup", [])]
+        except Exception:  # pylint: disable=broad-except
+            ev["lookup"] = []
         for op in ops:
             if op[0] == "q":
                 r = idx.nearest([f(op[1]), f(op[2])])
